@@ -125,6 +125,99 @@ fn hook(_site: &'static str) {
     }
 }
 
+static FINE_ON: std::sync::atomic::AtomicBool = std::sync::atomic::AtomicBool::new(false);
+
+/// Scheduling point at a function entry of the instrumented tree under test (fine-grained E3).
+pub fn fine_point() {
+    if !FINE_ON.load(std::sync::atomic::Ordering::Relaxed) {
+        return;
+    }
+    // thread-local access is valid only while the thread is alive and registered
+    let me = MY_ID.try_with(|c| c.get()).ok().flatten();
+    if let Some(me) = me {
+        if let Some(s) = current_sched() {
+            s.yield_point(me);
+        }
+    }
+}
+
+/// Configurations of the fine-grained exploration: tiny calls (a few hundred function entries each),
+/// every pair of them on two threads sharing rule and data, preemption bound 1.
+pub fn fine_configs(thorough: bool) -> Vec<(String, Vec<Vec<Call>>)> {
+    let d1 = Arc::new(json!({"a": {"b": "ab", "c": "é水"}, "c": {"d": "cd"}, "xs": [1, 2], "n": "0x10", "s": "añb"}));
+    let d2 = Arc::new(json!({"a": {"b": "AB"}, "c": {"d": "CD"}, "xs": [3], "n": 2, "s": "ñu"}));
+    let mut fam: Vec<(&str, Value)> = vec![
+        ("var:a.b", json!({"var": "a.b"})),
+        ("var:c.d", json!({"var": "c.d"})),
+        ("var:s.1", json!({"var": "s.1"})),
+        ("var:miss", json!({"var": ["a.zz", {"var": "c.d"}]})),
+        ("missing", json!({"missing": ["a.b", "zz", "c.d"]})),
+        ("missing_some", json!({"missing_some": [2, ["a.b", "zz", "c.q"]]})),
+        ("cat", json!({"cat": [{"var": "a.b"}, "-", {"var": "c.d"}]})),
+        ("filter", json!({"filter": [{"var": "xs"}, {"var": ""}]})),
+        ("substr", json!({"substr": [{"var": "s"}, -2]})),
+        ("arith", json!({"+": [{"var": "n"}, "2"]})),
+    ];
+    if thorough {
+        fam.extend(vec![
+            ("reduce", json!({"reduce": [{"var": "xs"}, {"+": [{"var": "current"}, {"var": "accumulator"}]}, 0]})),
+            ("all", json!({"all": [{"var": "s"}, {"!==": [{"var": ""}, "x"]}]})),
+            ("in", json!({"in": [{"var": "n"}, {"var": "xs"}]})),
+            ("cmp", json!({"<": [{"var": "n"}, "0x11"]})),
+            ("merge", json!({"merge": [{"var": "xs"}, {"var": "a.b"}]})),
+            ("log", json!({"log": {"var": "a.b"}})),
+        ]);
+    }
+    let rules: Vec<(&str, Arc<Value>)> = fam.into_iter().map(|(n, r)| (n, Arc::new(r))).collect();
+    let mut v = Vec::new();
+    for i in 0..rules.len() {
+        for j in i..rules.len() {
+            v.push((
+                format!("fine:{}|{}", rules[i].0, rules[j].0),
+                vec![vec![Call { rule: rules[i].1.clone(), data: d1.clone() }], vec![Call { rule: rules[j].1.clone(), data: if i == j { d2.clone() } else { d1.clone() } }]],
+            ));
+        }
+    }
+    v
+}
+
+/// `jlmc fine-run <tier> <shard> <nshards> <outfile>` (fine build only): exhaustive schedules with
+/// at most one preemption at function-entry granularity; writes a JSON summary.
+pub fn fine_run(a: &[String]) -> i32 {
+    let thorough = a.get(0).map(|t| t == "thorough").unwrap_or(false);
+    let shard: usize = a.get(1).and_then(|s| s.parse().ok()).unwrap_or(0);
+    let nshards: usize = a.get(2).and_then(|s| s.parse().ok()).unwrap_or(1);
+    let out = a.get(3).cloned().unwrap_or_else(|| "/dev/stdout".into());
+    unsafe {
+        libc::prctl(libc::PR_SET_PDEATHSIG, libc::SIGKILL);
+    }
+    exec::install_panic_hook();
+    let _saved = exec::capture_stdout();
+    install_hook();
+    let cap: u64 = std::env::var("JLMC_FINE_CAP").ok().and_then(|s| s.parse().ok()).unwrap_or(200_000);
+    let mut results = Vec::new();
+    for (i, (name, bodies)) in fine_configs(thorough).into_iter().enumerate() {
+        if i % nshards != shard {
+            continue;
+        }
+        FINE_ON.store(true, std::sync::atomic::Ordering::SeqCst);
+        let t0 = std::time::Instant::now();
+        let mut st0 = explore(&bodies, 0, cap, &mut |_| {});
+        let st = explore(&bodies, 1, cap, &mut |_| {});
+        FINE_ON.store(false, std::sync::atomic::Ordering::SeqCst);
+        st0.violations.extend(st.violations.iter().cloned());
+        let threads: Vec<Value> = bodies.iter().map(|b| Value::Array(b.iter().map(|c| json!({"rule": *c.rule, "data": *c.data})).collect())).collect();
+        results.push(json!({
+            "config": name, "schedules": st.schedules + st0.schedules, "points_total": st.points + st0.points, "max_points": st.max_points,
+            "capped": st.capped, "replay_divergences": st.replay_divergences + st0.replay_divergences, "wall_s": t0.elapsed().as_secs_f64(),
+            "threads": threads,
+            "violations": st0.violations.iter().take(3).map(|(ch, e, a)| json!({"schedule": ch, "expected": e, "actual": a})).collect::<Vec<_>>(),
+        }));
+    }
+    let _ = std::fs::write(&out, json!({"shard": shard, "results": results}).to_string());
+    0
+}
+
 pub fn install_hook() {
     jsonlogic_rs::verif_hook::install(hook);
 }
